@@ -81,6 +81,38 @@ def draw_ll(draw, n_out=None, n_par=None, kinds=EM_KINDS, p_fixed=0.15, positive
     return dict(n_out=n_out, n_par=n_par, ems=ems, times=times, obs=obs, tmode=mode, tied=tied)
 
 
+def draw_ll_like(draw, base, allow_tied=True):
+    """A structurally identical likelihood (same model and error models) with its own
+    time grids and observations."""
+    times, mode, tied = draw_time_grids(draw, base['n_out'], None, allow_tied)
+    obs = [draw(gen.vec(gen.logu(0.05, 50.0), len(t))) for t in times]
+    return dict(base, times=times, obs=obs, tmode=mode, tied=tied)
+
+
+def draw_ll_for_dim(draw, n_dim, max_out=3):
+    """A likelihood structure with exactly n_dim parameters (mechanistic + free error
+    parameters), as a population model of that dimensionality requires."""
+    n_out = draw(st.integers(1, max_out))
+    ems = []
+    for o in range(n_out):
+        ems.append(dict(kind=draw(st.sampled_from(EM_KINDS)), fixed=None))
+    # fix error parameters until at least one mechanistic parameter remains
+    def nsig():
+        return sum(ref.EM_NPAR[e['kind']] - (len(e['fixed']) if e['fixed'] else 0) for e in ems)
+    o = 0
+    while nsig() > n_dim - 1:
+        e = ems[o % n_out]
+        free = [j for j in range(ref.EM_NPAR[e['kind']]) if not (e['fixed'] and str(j) in e['fixed'])]
+        if free:
+            e['fixed'] = dict(e['fixed'] or {})
+            e['fixed'][str(free[-1])] = draw(gen.logu(0.05, 5.0))
+        o += 1
+    n_par = n_dim - nsig()
+    times, mode, tied = draw_time_grids(draw, n_out)
+    obs = [draw(gen.vec(gen.logu(0.05, 50.0), len(t))) for t in times]
+    return dict(n_out=n_out, n_par=n_par, ems=ems, times=times, obs=obs, tmode=mode, tied=tied)
+
+
 def ll_n_sigma(ll):
     """Number of free error parameters per output."""
     return [ref.EM_NPAR[e['kind']] - (len(e['fixed']) if e['fixed'] else 0) for e in ll['ems']]
@@ -191,11 +223,14 @@ def ll_structure(ll):
 
 
 # ---- pints priors ---------------------------------------------------------
-def draw_prior(draw, n):
-    """List of per-parameter prior specs."""
+def draw_prior(draw, n, values=None):
+    """List of per-parameter prior specs. If values are given, a prior whose support
+    excludes the value is chosen only rarely (prior-rejected class)."""
     out = []
-    for _ in range(n):
+    for i in range(n):
         k = draw(st.sampled_from(['lognormal', 'gaussian', 'uniform', 'halfcauchy']))
+        if values is not None and values[i] <= 0 and not gen.chance(draw, 0.1):
+            k = 'gaussian'
         if k == 'lognormal':
             out.append(dict(kind=k, a=draw(gen.real(-1, 1)), b=draw(gen.logu(0.2, 2.0))))
         elif k == 'gaussian':
@@ -234,11 +269,11 @@ def ref_prior(pspec, x):
         elif p['kind'] == 'gaussian':
             tot = tot - 0.5 * ref.LOG2PI - np.log(b) - (v - a) ** 2 / (2 * b ** 2)
         elif p['kind'] == 'uniform':
-            if np.real(v) < a or np.real(v) > b:
+            if np.real(v) < a or np.real(v) >= b:      # pints: support [a, b)
                 return -np.inf
             tot = tot - np.log(b - a)
         else:
-            if np.real(v) < 0:
+            if np.real(v) <= 0:                          # pints: support x > 0
                 return -np.inf
             tot = tot + np.log(2.0) - np.log(np.pi * b) - np.log(1 + ((v - a) / b) ** 2)
     return tot
